@@ -448,9 +448,18 @@ def run_case(seed, root, params=None):
                x < 0.5:
                 post_edits = [['remove', e0[1]]]
             elif e0 and e0[0] == 'mkdir' and x < 0.8:
-                ext = rng.choice(['.c', '.c', '.h', '.md'])
+                # a file that a recursive search below the new directory's
+                # parent would match, if there is one
+                exts = [os.path.splitext(s_.facts['pattern'])[1]
+                        for s_ in proj.stmts('find')
+                        if s_.facts.get('base') == os.path.dirname(e0[1])
+                        and '/**/' in s_.facts.get('pattern', '')]
+                ext = rng.choice([e for e in exts if e] or ['.c'])
                 rel = '{}/late{}{}'.format(e0[1], rng.randrange(100), ext)
                 post_edits = [['write', rel, G.c_source(rel)]]
+                if rng.random() < 0.8:
+                    # what notices (or not) is the backend
+                    followups[0] = ['attempt', 'backend']
             else:
                 lib0 = next(s_ for s_ in proj.stmts('find')
                             if s_.var == 'lib_src')
